@@ -151,7 +151,7 @@ func usedPkgNames(node ast.Node, info *types.Info) map[string]string {
 
 // expandHelpers returns an overlay (file name -> new content) in which the calls of new helper functions are expanded,
 // and notes describing what was done.
-func expandHelpers(modPkgs []*packages.Package, fset *token.FileSet, readSrc func(string) []byte, pass int) (map[string][]byte, []string) {
+func expandHelpers(modPkgs []*packages.Package, fset *token.FileSet, readSrc func(string) []byte, pass int, skip map[string]bool) (map[string][]byte, []string) {
 	known := knownFuncSet()
 	overlay := map[string][]byte{}
 	var notes []string
@@ -165,7 +165,7 @@ func expandHelpers(modPkgs []*packages.Package, fset *token.FileSet, readSrc fun
 		for _, f := range p.Syntax {
 			for _, d := range f.Decls {
 				fd, ok := d.(*ast.FuncDecl)
-				if !ok || known[funcDeclKey(p.PkgPath, fd)] || fd.Name.Name == "init" || fd.Name.Name == "main" {
+				if !ok || known[funcDeclKey(p.PkgPath, fd)] || skip[funcDeclKey(p.PkgPath, fd)] || fd.Name.Name == "init" || fd.Name.Name == "main" {
 					continue
 				}
 				if !inlinable(fd, info) {
@@ -374,10 +374,25 @@ func expandHelpers(modPkgs []*packages.Package, fset *token.FileSet, readSrc fun
 							if inLit {
 								return true
 							}
+							if th != nil && th.tail {
+								if len(x.Results) == 0 {
+									bedits = append(bedits, textEdit{coff(x.Pos()), coff(x.End()), "return " + strings.Join(results, ", ")})
+								} else {
+									bedits = append(bedits, textEdit{coff(x.Pos()), coff(x.Pos()) + len("return"), "{ " + strings.Join(results, ", ") + " ="})
+									bedits = append(bedits, textEdit{coff(x.End()), coff(x.End()), "; return " + strings.Join(results, ", ") + " }"})
+								}
+								return true
+							}
 							if th != nil && len(x.Results) == len(th.lhs) && len(x.Results) > 0 {
 								last := x.Results[len(x.Results)-1]
 								isFail := false
-								if th.okIdiom {
+								if th.nilIdiom {
+									if id, isId := last.(*ast.Ident); isId && id.Name == "nil" {
+										isFail = true
+									} else {
+										th.all = false // the value may still be nil at run time: the caller's own test stays
+									}
+								} else if th.okIdiom {
 									if id, isId := last.(*ast.Ident); isId && id.Name == "false" {
 										isFail = true
 									} else if isId && id.Name == "true" {
@@ -496,6 +511,15 @@ func expandHelpers(modPkgs []*packages.Package, fset *token.FileSet, readSrc fun
 						c, recv := calleeOf(call)
 						if c == nil {
 							continue
+						}
+						// only when the helper's body ends in a return (so that the expanded block is a terminating statement)
+						if n := len(c.fd.Body.List); n > 0 {
+							if _, endsInReturn := c.fd.Body.List[n-1].(*ast.ReturnStmt); endsInReturn && c.fd.Type.Results != nil {
+								if prefix, _, ok := expand(call, c, recv, &threadSpec{tail: true}); ok {
+									edits = append(edits, textEdit{off(x.Pos()), off(x.End()), prefix + resync(x.Pos(), x.End(), "")})
+								}
+								continue
+							}
 						}
 						if prefix, res, ok := expand(call, c, recv, nil); ok {
 							edits = append(edits, textEdit{off(x.Pos()), off(x.End()), prefix + resync(x.Pos(), x.End(), "return "+strings.Join(res, ", "))})
@@ -632,6 +656,11 @@ type threadSpec struct {
 	n   int
 	// okIdiom: the helper's last result is a bool tested as `!ok`: a failure return is one whose last result is the literal false
 	okIdiom bool
+	// nilIdiom: the helper's last result is a reference tested as `x == nil`: a failure return is the literal nil
+	nilIdiom bool
+	// tail: the call is the operand of a return: the helper's returns become returns of the caller (through the typed result
+	// variables), so every exit keeps its own path
+	tail bool
 }
 
 func threadFor(lhs []ast.Expr, tok token.Token, ifs *ast.IfStmt, c *inlineCand, text func(a, b token.Pos) string, info *types.Info, fset *token.FileSet, readSrc func(string) []byte) (*threadSpec, string) {
@@ -656,15 +685,32 @@ func threadFor(lhs []ast.Expr, tok token.Token, ifs *ast.IfStmt, c *inlineCand, 
 		}
 	}
 	lastT := strings.TrimSpace(rtypes[len(rtypes)-1])
-	if len(rtypes) != len(lhs) || lastT != "error" && lastT != "bool" {
+	if len(rtypes) != len(lhs) {
 		return nil, ""
+	}
+	nilIdiom := false
+	if lastT != "error" && lastT != "bool" {
+		// a reference result tested against nil
+		be, ok := ifs.Cond.(*ast.BinaryExpr)
+		if !ok || be.Op != token.EQL {
+			return nil, ""
+		}
+		if y, ok := be.Y.(*ast.Ident); !ok || y.Name != "nil" {
+			return nil, ""
+		}
+		nilIdiom = true
 	}
 	errID, ok := lhs[len(lhs)-1].(*ast.Ident)
 	if !ok || errID.Name == "_" {
 		return nil, ""
 	}
 	okIdiom := lastT == "bool"
-	if okIdiom {
+	if nilIdiom {
+		be := ifs.Cond.(*ast.BinaryExpr)
+		if id, ok := be.X.(*ast.Ident); !ok || id.Name != errID.Name {
+			return nil, ""
+		}
+	} else if okIdiom {
 		ue, ok := ifs.Cond.(*ast.UnaryExpr)
 		if !ok || ue.Op != token.NOT {
 			return nil, ""
@@ -727,7 +773,7 @@ func threadFor(lhs []ast.Expr, tok token.Token, ifs *ast.IfStmt, c *inlineCand, 
 		}
 	}
 	handler := text(ifs.Body.Lbrace+1, ifs.Body.Rbrace)
-	return &threadSpec{lhs: names, handler: strings.TrimSpace(handler), all: true, okIdiom: okIdiom}, decl
+	return &threadSpec{lhs: names, handler: strings.TrimSpace(handler), all: true, okIdiom: okIdiom && !nilIdiom, nilIdiom: nilIdiom}, decl
 }
 
 // definiteErrorExpr: the returned error expression cannot be nil: an error constructor call, a package-level error value, or
@@ -807,4 +853,20 @@ func definiteErrorExpr(e ast.Expr, ret *ast.ReturnStmt, fd *ast.FuncDecl, info *
 		}
 	}
 	return false
+}
+
+// newFuncKeys: the functions of the module that are not in the reference list.
+func newFuncKeys(modPkgs []*packages.Package) map[string]bool {
+	known := knownFuncSet()
+	out := map[string]bool{}
+	for _, p := range modPkgs {
+		for _, f := range p.Syntax {
+			for _, d := range f.Decls {
+				if fd, ok := d.(*ast.FuncDecl); ok && !known[funcDeclKey(p.PkgPath, fd)] {
+					out[funcDeclKey(p.PkgPath, fd)] = true
+				}
+			}
+		}
+	}
+	return out
 }
